@@ -165,6 +165,7 @@ type Frame struct {
 }
 
 type Exec struct {
+	curSite ssa.Instruction // the call instruction being executed (for static call-site ordinals)
 	E       *Engine
 	fn      *ssa.Function
 	fc      *FuncContract
